@@ -611,14 +611,14 @@ Proof.
   { intros w Hw v Hv. unfold vars_of in Hv. cbn [flat_map vars_op] in Hv. rewrite app_nil_r in Hv.
     fold (vars_of (pre ++ map (subst_op d w) post)) in Hv. rewrite vars_of_app in Hv.
     assert ((v < S fresh)%nat); [|lia].
-    destruct Hv as [<-|[<-|[<-|[<-|Hv]]]]; try (assert ((v < fresh)%nat) by (apply Hbvars; cbn; auto); lia).
+    destruct Hv as [<-|[<-|[<-|[<-|Hv]]]].
     - assert ((iv < fresh)%nat) by (apply Hbvars; cbn; auto). lia.
     - assert ((lb < fresh)%nat) by (apply Hbvars; cbn; auto). lia.
     - assert ((ub < fresh)%nat) by (apply Hbvars; cbn; auto). lia.
     - assert ((st < fresh)%nat) by (apply Hbvars; cbn; auto). lia.
     - apply in_app_or in Hv as [Hv|Hv].
       + assert ((v < fresh)%nat) by (apply Hbvars; do 4 right; apply in_or_app; left; exact Hv). lia.
-      + destruct (vars_subst _ _ _ _ Hv) as [Hq|->]; [|exact Hw].
+      + destruct (vars_subst _ _ _ _ Hv) as [Hq|Hq]; [|subst v; exact Hw].
         assert ((v < fresh)%nat) by (apply Hbvars; do 4 right; apply in_or_app; right; apply in_or_app; right; exact Hq). lia. }
   assert (Hnewop : forall E, (forall u, In u (uses_p E) -> In u D) ->
      [Def fresh E; For iv lb ub st (pre ++ map (subst_op d fresh) post)] = ops ->
@@ -654,6 +654,9 @@ Proof.
     - intros v Hv. rewrite vars_of_cons in Hv. apply in_app_or in Hv as [Hv|Hv].
       + cbn [vars_op] in Hv. destruct Hv as [<-|Hv]; [lia|]. specialize (HbD _ (HE _ Hv)). lia.
       + apply (Hbnew fresh); [lia|exact Hv]. }
+  assert (Hao : alldefs_op (For iv lb ub st (pre ++ Def d (PDim src idx) :: post)) = iv :: alldefs pre ++ d :: alldefs post).
+  { cbn [alldefs_op]. fold (alldefs (pre ++ Def d (PDim src idx) :: post)). rewrite alldefs_app, alldefs_cons. reflexivity. }
+  rewrite Hao.
   destruct r as [z|v|s i|v c]; try discriminate.
   - apply (Hnewop (PConst z)); [intros u []|]. inversion Hr. reflexivity.
   - destruct (in_scope Sc v) eqn:Ev; [|discriminate]. inversion Hr; subst ops; clear Hr.
